@@ -6,7 +6,8 @@ from .. import impl
 from . import common as C
 
 POOL = [('v', i) for i in range(5)]
-CONSTS = [('a', 'a'), ('a', 'b'), ('a', 'c'), ('i', 0), ('i', 1), ('s', 'a'), ('s', ''), ('a', '[]'), ('a', '1')]
+CONSTS = [('a', 'a'), ('a', 'b'), ('a', 'c'), ('i', 0), ('i', 1), ('s', 'a'), ('s', ''), ('a', '[]'), ('a', '1'),
+          ('k', 'None'), ('k', '2.5'), ('k', "b'x'"), ('k', "('t', 1)"), ('i', -3)]
 
 
 def gterm(src, depth=0, nv=5):
@@ -51,7 +52,7 @@ class C02(Prop):
     title = 'Unification computes a most general unifier, or fails'
     technique = 'property-based differential testing of unify against a reference unifier with explicit binding stacks (Hypothesis) + bounded-exhaustive enumeration of term pairs'
     rule = ('(a) generated: a pool of <= 5 variables, a stack of 0-3 earlier unifications opened as nested, still '
-            'suspended generators, then a pair (t1, t2) of terms over atoms, ints, Python str constants, f/1 g/2 f/2 '
+            'suspended generators, then a pair (t1, t2) of terms over atoms, ints, Python constants (str, None, float, bytes, tuple, negative int), f/1 g/2 f/2 '
             'h/3 g/1, proper and partial lists; t2 is usually derived from t1 by replacing sub-terms with variables / '
             'other terms / a clashing symbol or arity. (b) exhaustive: all ordered pairs of the 35 terms of depth <= 1 '
             'over {a, b, 1, X, Y, f/1, g/2} under the empty stack and under every single earlier binding X = t / Y = t '
@@ -59,12 +60,12 @@ class C02(Prop):
             'stack). Checked against a reference unifier: yields 0 or 1 times (a second next() stops), yields iff an '
             'mgu exists, at the yield the joint reification of (pool variables, t1, t2) equals the reference\'s resolved '
             'tuple up to renaming (most general, aliasing preserved, t1 and t2 identical), unify(t2, t1) from a fresh '
-            'copy of the state gives the same verdict and value, closing instead of exhausting also restores, and '
+            'copy of the state gives the same verdict and value, as does unify(t1, u2) with u2 = t2 built by another engine instance, closing instead of exhausting also restores, and '
             'afterwards every variable is as before. Cases that are STO (ISO 7.3.3: some order meets the occurs check) '
             'in the stack or the pair are discarded. Non-trivial = the pair is not syntactically identical and (both '
             'terms compound, or an earlier binding is dereferenced); distinct = SHA-1 of stack + pair.')
     assumptions = ['CPython 3.12 of /venv', 'reference unifier + order-independent STO detector (self-tested against random-order Herbrand runs)',
-                   'Python constants are non-bool ints and strs only']
+                   'Python constants: str, non-bool int, None, 2.5, bytes, a tuple (no values that compare equal across types such as 1 == True == 1.0)']
     cases = {'quick': 16000, 'thorough': 300000}
     genome = {'quick': 120, 'thorough': 120}
 
@@ -128,13 +129,11 @@ class C02(Prop):
         at_ref = canon(resolve(obs_terms, s2, None, 3000)) if s2 is not None else None
         detail = {'stack': ['%s = %s' % (show(a), show(b)) for a, b in stack], 'pair': '%s = %s' % (show(t1), show(t2)),
                   'reference': 'unifiable' if s2 is not None else 'not unifiable'}
-        for swap in (False, True):
-            for ending in ('exhaust', 'close'):
-                if swap and ending == 'close':
-                    continue
-                r = self._run_impl(stack, kept, t1, t2, swap, ending, before_ref, at_ref, s2 is not None)
+        for swap, ending, other in ((False, 'exhaust', False), (False, 'close', False), (True, 'exhaust', False), (False, 'exhaust', True)):
+            if True:
+                r = self._run_impl(stack, kept, t1, t2, swap, ending, before_ref, at_ref, s2 is not None, other)
                 if r is not None:
-                    detail['variant'] = 'unify(t2,t1)' if swap else 'unify(t1,t2)'
+                    detail['variant'] = ('unify(t2,t1)' if swap else 'unify(t1,t2)') + (' with t2 built by another engine' if other else '')
                     detail['ending'] = ending
                     detail['problem'] = r[1]
                     return FAIL(r[0], detail)
@@ -155,7 +154,7 @@ class C02(Prop):
             return out
         return [t]
 
-    def _run_impl(self, stack, kept, t1, t2, swap, ending, before_ref, at_ref, unifiable):
+    def _run_impl(self, stack, kept, t1, t2, swap, ending, before_ref, at_ref, unifiable, other_engine=False):
         from yldprolog.engine import unify
         yp = impl.YP()
         vmap = {}
@@ -173,7 +172,13 @@ class C02(Prop):
                     return ('stack-unify-verdict', 'earlier unification %s = %s: implementation %s, reference %s' % (show(a), show(b), ok, k))
                 if ok:
                     gens.append(g)
-            e1, e2 = E(yp, t1, vmap), E(yp, t2, vmap)
+            e1 = E(yp, t1, vmap)
+            if other_engine:
+                # the right-hand term is built by ANOTHER engine instance (its atoms are other objects of the same
+                # name; variables are shared through vmap): "atoms ... unify across engines"
+                e2 = E(impl.YP(), t2, vmap)
+            else:
+                e2 = E(yp, t2, vmap)
 
             def observe():
                 seen = {}
